@@ -614,7 +614,7 @@ class Interp:
         sc = strip_generics(c)
         if sc in self.consts:
             return self.consts[sc]
-        if re.match(r'^[\w:<> ,&\[\]\'\(\)]+$', c) and '::' in c:
+        if re.match(r'^[\w:<> ,&\[\]\'\(\)]+$', c) and ('::' in c or strip_generics(c) in self.funcs):
             return FnItem(c)
         raise Unsupported('const ' + c)
 
@@ -884,7 +884,11 @@ class Interp:
                     return (len(x.lst) if x.end is None else x.end) - x.start
                 if isinstance(x, VecObj):
                     return len(x.items)
-            raise Unsupported('unop ' + rv[1])
+                if isinstance(x, Agg):
+                    return len(x)
+                if isinstance(x, StringObj):
+                    return len(x.buf)
+            raise Unsupported('unop ' + rv[1] + ' of ' + type(a).__name__)
         if k == 'cast':
             v = self.operand(fr, rv[1], f)
             if rv[3] == 'IntToInt':
